@@ -10,6 +10,8 @@ def jobs(tier):
         Job("c11_ctl", "flt-asan", "enumerate", workers=W, enum_stride=8 if q else 1, maxtime=180 if q else 1200),
         Job("c11_ctl", "flt-asan", "random", workers=W, cases=2000 if q else 40000, maxtime=180 if q else 1200),
         Job("c11_honour", "flt-asan", "random", workers=W, cases=500 if q else 10000, maxtime=180 if q else 1200),
+        # fixed-point build: its speech-layer encoder (silk/fixed) and analysis gating are separate code
+        Job("c11_honour", "fix-asan", "random", workers=W, cases=200 if q else 4000, maxtime=180 if q else 900, seed_salt=43),
         Job("c11_alloc", "flt-asan", "enumerate", workers=4, maxtime=60, link_extra=("-Wl,--wrap=malloc",)),
     ]
 
